@@ -15,6 +15,7 @@ speaks about sets only (address intervals, C41's `Domain.Matches`, C43's `Range.
 -/
 import SquidModel.Acl.HttpLemmas
 import SquidModel.Acl.HttpText
+import SquidModel.Acl.HttpAsync
 
 namespace SquidModel.C45
 open SquidModel SquidModel.Acl SquidModel.Acl.Http
@@ -103,6 +104,22 @@ say about the built-in `all` stops it from matching. -/
 theorem no_usable_rule_denies_everything (lines : List Bytes) (c1 c : Conf) (h1 : parseLines builtins lines = .ok c1)
     (hnone : c1.rules = []) (h : parseConf lines = .ok c) (r : Req) : observe c r = .deny :=
   no_rule_denies_all lines c1 c h1 hnone h r
+
+/-- The `dst` verdict does not depend on whether the ipcache already had the answer: a cached answer is used at once;
+otherwise `goAsync()` pauses the checklist, the lookup sets `destinationIpLookedUp`, `match()` runs again and sees the
+answer (or, after a failed lookup, answers "mismatch").  Both ways the verdict is the decision model's `dstIpMatch`. -/
+theorem dst_verdict_independent_of_cache (a : Acl) (r : Req) (cached : Option (List Nat)) (hn : a.noLookup = false)
+    (h : CacheAgrees cached r.ips) : dstVerdict a cached r.ips = dstIpMatch a r :=
+  (dstIpMatch_is_async_verdict a r cached hn h).symm
+
+/-- The same for the reverse lookup of `dstdomain` on a numeric host: the PTR name, or the word `none`. -/
+theorem dstdomain_verdict_independent_of_cache (a : Acl) (cached answer : Option Bytes)
+    (h : ∀ n, cached = some n → answer = some n) :
+    dstDomainVerdict a cached answer =
+      (match answer with
+       | some name => domainsMatch a.domains name
+       | none => domainsMatch a.domains (bytes! "none")) :=
+  dstdomain_async_same_verdict a cached answer h
 
 /-- **Text level: method names.**  Every registered method name, written as squid prints it, is read as that method in an
 `acl ... method` line and in a request line, so `acl m method NAME` matches exactly the requests whose method is NAME. -/
